@@ -71,7 +71,7 @@ def check(ctx):
             na += 1
             if not e["ok"]:
                 ctx.violation("%s key=%r" % (e["what"], e.get("key")), "live-c13key: %s" % json.dumps(e), {"kind": "live-c13key", "event": e})
-    if na < 20:
+    if na < 20 and not ctx.viol:
         raise vlib.ToolFailure("live-c13key recorded %d assertions" % na)
     ctx.note_impl("departed-key-calls-with-custom-key-function", na)
     # a caller without a time-out whose command reuses, after the 16-bit wrap, the platform serial of an answered request whose
